@@ -9,8 +9,13 @@ ValDom == {NoneV, 0, 1, 3}
 KeyTuples == [1..NKeys -> KeyDom]
 VARIABLE c
 Init == \E n \in 0..MaxRows : \E K \in [1..n -> KeyTuples], V \in [1..n -> ValDom] :
-          LET P == Partition(K) IN
-          c = [K |-> K, V |-> V, keys |-> GroupKeysP(P), rows |-> [g \in 1..Len(P) |-> P[g].rows],
+          LET P == Partition(K)
+              V2 == [i \in 1..n |-> V[n + 1 - i]]          \* a second aggregated column (the first one reversed)
+          IN
+          c = [K |-> K, V |-> V, V2 |-> V2, keys |-> GroupKeysP(P), rows |-> [g \in 1..Len(P) |-> P[g].rows],
+               sum2 |-> AggregateP("sum", P, V2), count2 |-> AggregateP("count", P, V2),
+               min2 |-> AggregateP("min", P, V2), max2 |-> AggregateP("max", P, V2),
+               mean2 |-> AggregateP("mean", P, V2), var2 |-> AggregateP("var", P, V2),
                sum |-> AggregateP("sum", P, V), count |-> AggregateP("count", P, V),
                min |-> AggregateP("min", P, V), max |-> AggregateP("max", P, V),
                mean |-> AggregateP("mean", P, V), var |-> AggregateP("var", P, V),
